@@ -6,6 +6,7 @@
 //! crate's own checks (verification hook) is appended as `| <bits of the f64 value>`.
 #![allow(dead_code)]
 mod arr;
+mod arr_gen;
 mod bi;
 mod c01;
 mod fam;
